@@ -834,7 +834,8 @@ def inline_detail(F, body, raw):
         return raw
     # combinators and closure calls of the body itself first: a helper's return sites can only be threaded into a continuation that
     # already is a branch (`helper().is_none_or(..)` → `match helper() { .. }`)
-    work.sort(key=lambda w: 0 if isinstance(w[1], tuple) and w[1] and w[1][0] in ("comb", "clcall") else 1)
+    # ... and of a chain `a.and_then(..).map(..)` the last link first, for the same reason
+    work.sort(key=lambda w: (0, -w[0]) if isinstance(w[1], tuple) and w[1] and w[1][0] in ("comb", "clcall") else (1, w[0]))
     det = {"blocks": [dict(b, stmts=list(b["stmts"]), term=dict(b["term"])) for b in blocks], "locals": dict(raw["locals"]),
            "vars": list(raw["vars"]), "argc": raw["argc"], "inlined": [],
            "extra": {"calls": [], "aggregates": [], "field_mut": [], "asserts": []}}
